@@ -1138,7 +1138,14 @@ impl<'a, 'b> GeneratorState<'a> {
             }
         }
         self.label(&switchend_label)?;
-        self.loops.pop();
+        // A continue inside the switch belongs to the enclosing loop: tell it that its
+        // continue label is used
+        let continue_used = self.loops.pop().map(|l| l.2).unwrap_or(false);
+        if continue_used {
+            if let Some(l) = self.loops.last_mut() {
+                l.2 = true;
+            }
+        }
         Ok(())
     }
 }
